@@ -168,7 +168,8 @@ CHECKS["C18"] = dict(
 
 CHECKS["C11"] = dict(
     technique="TLA+ reference left-to-right option scan (Argv.Scan) with TLC invariant; TLC-enumerated argument vectors "
-              "replayed into config.ArgumentParser.parse_args and config.load_database (arguments and command forms)",
+              "replayed into config.ArgumentParser.parse_args and config.load_database (arguments and command forms); a "
+              "sample of those executions recorded (hook event ParseArgs) and validated by Trace_Cfg.tla",
     text="Every argument vector up to the piece bound over a catalogue of recognised-option spellings and ~40 real "
          "unmodelled compiler options (plus simulated long vectors) is parsed by the real ArgumentParser for six compiler "
          "names and through load_database in both database forms; defines, search directories (-I then -isystem) and "
